@@ -31,13 +31,17 @@ must differ from the import account, otherwise a posting pair cancels itself):
   `C13_booking_row`, `C13_nothing_else`.
 * `C13_<importer>_wellformed` — every emitted directive is `wellFormed`: transactions have at least one booking (a
   zero-amount row still yields its booking line), all account and commodity names are valid names for knut's parser,
-  whatever the free-text fields contain.
+  the stored description has no double quote, whatever the free-text fields contain.
 * `C13_monitor_complete` / `C13_monitor_sound` — the executable predicate the monitor evaluates on the REAL output
   (`faithfulB`) holds of faithful directives, and whenever it holds the directives are, up to the reordering
   `journal.Print` applies, faithful.
-* witnesses of the places where a format is *not* one-row-one-transaction or the code deviates
-  (`wise_conversion_two_transactions`, `swissquote_forex_pair_one_transaction`,
-  `swissquote_sale_without_proceeds_is_booked_as_purchase`, `postfinance_echo_nonempty`).
+* `C13_description_has_no_quote`, `C13_replaceQuotes_idempotent` — the description a built transaction stores contains
+  no double quote, and replacing again (as the printer still does) changes nothing: the day's transactions are sorted by
+  the very text that is printed (repair 7934e0c of `C13-quote-replaced-after-sorting`).
+* witnesses of the places where a format is *not* one-row-one-transaction
+  (`wise_conversion_two_transactions`, `swissquote_forex_pair_one_transaction`), and of the repaired behaviour
+  `swissquote_sale_without_proceeds_is_a_sale` (repair c9fcfe1).  `ch.postfinance`'s model no longer has an echo
+  (repair 3b9fb06): `Postfinance.run` yields directives only.
 
 **Not mechanised (partial).**  The text-level clause.  Full statement, with `parse` the parser model and `load` parser + model builder:
 
@@ -50,9 +54,10 @@ must differ from the import account, otherwise a posting pair cancels itself):
   (`JournalPrinter.printTx` goes through `String.replace`, about which core Lean proves nothing).  The clause is decided on every
   run on the REAL output by the monitors `output_parses` (knut's parser), `output_parses_lean_parser` (the parser
   model), `directives_wellformed`, `output_accepted` and `output_reprinted_unchanged` (`knut print` on opens +
-  output), over free text with quotes, separators, newlines, control characters and Unicode.  The second half is
-  in fact FALSE for the code as it stands (the printer replaces `"` by `'` after sorting the day's transactions by
-  description): recorded finding `C13-quote-replaced-after-sorting`.
+  output), over free text with quotes, separators, newlines, control characters and Unicode.  (Until repair 7934e0c
+  the second half was false: the printer replaced `"` by `'` only after the day's transactions had been sorted by the
+  unreplaced description.  What the model carries of the repair is proved: `C13_description_has_no_quote`; that the
+  printer's remaining `String.replace` is the identity on such a description is again a fact about `String.replace`.)
 -/
 namespace Knut.C13
 open Knut Knut.Import Knut.Spec.Import Knut.Proofs.Import
@@ -80,9 +85,9 @@ theorem C13_cumulus (acct : Account) (hacct : acct ≠ tbd) (recs : List Rec) (d
   cumulus_faithful acct hacct recs ds h
 
 /-- `ch.postfinance`: the records of the booking block ↦ one transaction each in the statement's currency -/
-theorem C13_postfinance (acct : Account) (hacct : acct ≠ tbd) (recs : List Rec) (echo : String) (ds : List Directive)
-    (h : Postfinance.run acct recs = .ok (echo, ds)) : Faithful acct (postfinance recs) ds :=
-  postfinance_faithful acct hacct recs echo ds h
+theorem C13_postfinance (acct : Account) (hacct : acct ≠ tbd) (recs : List Rec) (ds : List Directive)
+    (h : Postfinance.run acct recs = .ok ds) : Faithful acct (postfinance recs) ds :=
+  postfinance_faithful acct hacct recs ds h
 
 /-- `revolut2`: completed rows ↦ one transaction each (amount minus fee); then one balance per (day, currency): the last row's -/
 theorem C13_revolut2 (acct fee : Account) (hacct : acct ≠ tbd) (hfee : acct ≠ fee) (recs : List Rec) (ds : List Directive)
@@ -120,11 +125,13 @@ theorem C13_interactivebrokers (a : Swissquote.Accts) (ok : AcctsOK a) (recs : L
 
 /-! ## Every emitted directive is well-formed (the hypothesis of the print-then-parse round trip)
 
-`wellFormed`: a transaction has at least one booking and its postings come in pairs; every account is a valid account
+`wellFormed`: a transaction's stored description contains no double quote, it has at least one booking and its postings
+come in pairs; every account is a valid account
 name (a type and non-empty alphanumeric segments), every commodity (also the `@performance` targets) a non-empty
 alphanumeric name — for the character class of knut's registry **and** parser (`unicode.IsLetter/IsDigit`, regenerated
 tables).  Hypothesis: the flags' accounts are ones the registry accepted (`AccOK`, implied by `accountFlag s = .ok a`:
-`accOK_of_flag`).  Free-text fields do not enter: they only reach descriptions. -/
+`accOK_of_flag`).  Free-text fields only reach descriptions, where `transaction.Builder.Build` neutralises the one
+character the syntax cannot carry. -/
 
 theorem C13_swisscard2_wellformed (acct : Account) (ha : AccOK acct) (recs : List Rec) (ds : List Directive)
     (h : Swisscard2.run acct recs = .ok ds) : ∀ d ∈ ds, wellFormed alnum d = true := swisscard2_wf acct ha recs ds h
@@ -134,9 +141,9 @@ theorem C13_supercard_wellformed (acct : Account) (ha : AccOK acct) (recs : List
     (h : Supercard.run acct recs = .ok ds) : ∀ d ∈ ds, wellFormed alnum d = true := supercard_wf acct ha recs ds h
 theorem C13_cumulus_wellformed (acct : Account) (ha : AccOK acct) (recs : List Rec) (ds : List Directive)
     (h : Cumulus.run acct recs = .ok ds) : ∀ d ∈ ds, wellFormed alnum d = true := cumulus_wf acct ha recs ds h
-theorem C13_postfinance_wellformed (acct : Account) (ha : AccOK acct) (recs : List Rec) (echo : String) (ds : List Directive)
-    (h : Postfinance.run acct recs = .ok (echo, ds)) : ∀ d ∈ ds, wellFormed alnum d = true :=
-  postfinance_wf acct ha recs echo ds h
+theorem C13_postfinance_wellformed (acct : Account) (ha : AccOK acct) (recs : List Rec) (ds : List Directive)
+    (h : Postfinance.run acct recs = .ok ds) : ∀ d ∈ ds, wellFormed alnum d = true :=
+  postfinance_wf acct ha recs ds h
 theorem C13_revolut2_wellformed (acct fee : Account) (ha : AccOK acct) (hf : AccOK fee) (recs : List Rec) (ds : List Directive)
     (h : Revolut2.run acct fee recs = .ok ds) : ∀ d ∈ ds, wellFormed alnum d = true := revolut2_wf acct fee ha hf recs ds h
 theorem C13_revolut_wellformed (acct : Account) (ha : AccOK acct) (recs : List Rec) (ds : List Directive)
@@ -151,6 +158,27 @@ theorem C13_swissquote_wellformed (a : Swissquote.Accts) (v : AcctsValid a) (rec
     (h : Swissquote.run a recs = .ok ds) : ∀ d ∈ ds, wellFormed alnum d = true := swissquote_wf a v recs ds h
 theorem C13_interactivebrokers_wellformed (a : Swissquote.Accts) (v : AcctsValid a) (recs : List Rec) (ds : List Directive)
     (h : IB.run a recs = .ok ds) : ∀ d ∈ ds, wellFormed alnum d = true := interactivebrokers_wf a v recs ds h
+
+/-- **the stored description of every emitted transaction has no double quote** (it is what `journal.Sort` compares and,
+up to the printer's idempotent replacement, what is printed) -/
+theorem C13_description_has_no_quote (t : Transaction) (h : wellFormed alnum (.tx t) = true) :
+    ∀ c ∈ t.description.toList, c ≠ '"' := by
+  unfold wellFormed at h
+  simp only [Bool.and_eq_true, List.all_eq_true] at h
+  intro c hc
+  have := h.1.1.1.1 c hc
+  simpa using this
+
+/-- replacing the quotes of a built description again changes nothing: the printer's own replacement is idle -/
+theorem C13_replaceQuotes_idempotent (s : String) : replaceQuotes (replaceQuotes s) = replaceQuotes s := by
+  unfold replaceQuotes
+  simp only [String.toList_ofList, List.map_map]
+  congr 1
+  apply List.map_congr_left
+  intro c _
+  by_cases hc : c = '"'
+  · subst hc; decide
+  · simp [hc]
 
 /-- the accounts the driver (like the registry) accepts as flags are `AccOK` -/
 theorem C13_flag_accounts_ok (s : String) (a : Account) (h : accountFlag s = .ok a) : AccOK a := accOK_of_flag h
@@ -313,51 +341,13 @@ theorem swissquote_forex_pair_one_transaction :
     (swissquote [sqHdr, sqFx1, sqFx2]).length = 1 ∧ counts (Swissquote.run sqAccts [sqHdr, sqFx1, sqFx2]) = some (1, 1) := by
   decide +kernel
 
-/-- `ch.swissquote` tells a sale from a purchase by the sign of `Nettobetrag + Kosten`: a sale (`Verkauf`) of 8 shares
-without proceeds is booked as +8 shares — the row's share amount with the wrong sign
-(recorded as `C13-swissquote-sale-without-proceeds-booked-as-purchase`) -/
-theorem swissquote_sale_without_proceeds_is_booked_as_purchase :
+/-- `ch.swissquote` tells a sale from a purchase by the row type (repair c9fcfe1): a sale (`Verkauf`) of 8 shares
+without proceeds takes 8 shares out of the account (it used to be booked as +8, finding
+`C13-swissquote-sale-without-proceeds-booked-as-purchase`, fixed) -/
+theorem swissquote_sale_without_proceeds_is_a_sale :
     (match Swissquote.run sqAccts [sqHdr, sqSale] with
      | .ok [.tx t] => some (effectOn bank "VWRL" t.postings)
-     | _ => none) = some 8 := by
+     | _ => none) = some (-8) := by
   decide +kernel
-
-/-- `ch.postfinance` never succeeds without echoing a record on stdout before the journal (a left-over `fmt.Println`):
-the text on stdout is not a journal (recorded as `C13-postfinance-debug-line-on-stdout`) -/
-theorem postfinance_echo_nonempty (acct : Account) (recs : List Rec) (echo : String) (ds : List Directive)
-    (h : Postfinance.run acct recs = .ok (echo, ds)) : echo.length > 0 := by
-  have hb : ∀ (cur : Commodity) (rs : List Rec) (dbg : String) (ds : List Directive) (rest : List Rec),
-      Postfinance.bookings acct cur rs = .ok (dbg, ds, rest) → dbg.length > 0 := by
-    intro cur rs
-    induction rs with
-    | nil => intro dbg ds rest h; simp [Postfinance.bookings] at h
-    | cons r rs ih =>
-      intro dbg ds rest h
-      unfold Postfinance.bookings at h
-      split at h
-      · simp at h
-        obtain ⟨h1, _, _⟩ := h
-        subst h1
-        simp only [Postfinance.debugLine, String.length_append]
-        have : ("]\n" : String).length = 2 := by decide
-        omega
-      · obtain ⟨d, hd, h⟩ := Res.bind_eq_ok h
-        obtain ⟨q, hq, h⟩ := Res.bind_eq_ok h
-        obtain ⟨⟨dbg', ds', rest'⟩, hrec, h⟩ := Res.bind_eq_ok h
-        simp at h
-        obtain ⟨h1, _, _⟩ := h
-        subst h1
-        exact ih _ _ _ hrec
-  unfold Postfinance.run at h
-  obtain ⟨⟨o, rest⟩, hkv, h⟩ := Res.bind_eq_ok h
-  obtain ⟨c, hc, h⟩ := Res.bind_eq_ok h
-  obtain ⟨⟨dbg', ds', rest'⟩, hbk, h⟩ := Res.bind_eq_ok h
-  simp only at h
-  split at h
-  · simp at h
-    obtain ⟨h1, _⟩ := h
-    subst h1
-    exact hb _ _ _ _ _ hbk
-  · cases h
 
 end Knut.C13
